@@ -176,6 +176,8 @@ def _init_worker(fn_module, fn_name, repo):
     import importlib
     import logging
     logging.disable(logging.WARNING)        # npTDMS warns about every truncated file; the checks read thousands
+    import warnings
+    warnings.simplefilter("ignore")
     _worker_fn = getattr(importlib.import_module(fn_module), fn_name)
 
 
